@@ -67,7 +67,7 @@ def check_event(s, ev, out):
             if u.target in ev['before'][d][0]:
                 out.nontrivial = True
                 out.label('failure-with-dependent-pending')
-    if op in ('req', 'rereq', 'reqall') and any(
+    if op in ('req', 'rereq', 'reqall', 'requp') and any(
         s.ref.is_analysis(t) and s.ref.ancestors[t] for t in ev.get('names', ())
     ):
         out.nontrivial = True
